@@ -77,6 +77,9 @@ M = {
    "\tc.returnType = prevReturnType\n\tc.throwType = prevThrowType\n\tc.mode = prevMode", "\tc.returnType = prevReturnType\n\t_ = prevThrowType\n\tc.mode = prevMode"),
   ("catch-scopes-not-restored", "types/checker/method.go", "\tc.catchScopes = prevCatchScopes\n\treturn typedReturnTypeNode, typedThrowTypeNode", "\t_ = prevCatchScopes\n\treturn typedReturnTypeNode, typedThrowTypeNode"),
   ("mode-not-restored", "types/checker/method.go", "\tc.mode = prevMode\n\tc.flags = prevFlags\n\tc.catchScopes", "\tc.flags = prevFlags\n\tc.catchScopes"),
+  ("overloads-rewritten-in-place", "types/checker/method.go",
+   "\t\tnewOverloads := make([]*types.Method, len(method.Overloads))\n\t\tfor i, overload := range method.Overloads {\n\t\t\tnewOverloads[i] = c.replaceTypeParametersInMethodCopy(overload, typeArgs, replaceMethodTypeParams)\n\t\t}\n\t\tmethodCopy.Overloads = newOverloads\n",
+   "\t\tfor i, overload := range method.Overloads {\n\t\t\tmethod.Overloads[i] = c.replaceTypeParametersInMethod(overload, typeArgs, replaceMethodTypeParams)\n\t\t}\n"),
   ("HARMLESS-restore-lines-reordered", "types/checker/method.go",
    "\tc.mode = prevMode\n\tc.flags = prevFlags\n\tc.catchScopes = prevCatchScopes", "\tc.catchScopes = prevCatchScopes\n\tc.flags = prevFlags\n\tc.mode = prevMode"),
  ],
